@@ -363,3 +363,12 @@ _app("C14", "text", " set_seed, rand_generator and noise (utils/random.py), get_
 _app("C14", "note", "; tie (T): py2coq_seed.py and base/SeedPrelude.v (module globals and Generator objects as an explicit world; default_rng(int) = a fresh stream rooted in the int); the RandomState "
      "branch is pinned textually, the default-seed line of _chaos.py and the draws of mat_gen stay on tie (H)")
 _app("C14", "technique", " + seed plumbing translated on every run and proved equal to the model (translator tie)")
+for _p in ("C02", "C07", "C08"):
+    _app(_p, "text", " The R-vs-Q instance gap is closed by proof for the history runner of this property (coq/proofs/QR_bridge_Model.v): every node kind of Kinds.v and every operation of ModelSem.v / "
+         "ProxySem.v (run_op, call_op, reset_op with all flags, failing nodes included) maps embedded inputs to embedded results with the same success flag, and a verdict chk_hist_both = true is a "
+         "statement about the R-instance history (%s_chk_hist_both_is_about_R_model)." % _p)
+_app("C05", "note", " The history family shares the runner bridged in QR_bridge_Model.v (statement C02_chk_hist_both_is_about_R_model); the subsender family is not bridged.")
+_app("C09", "text", " The Gauss-Jordan routine LA.qsolve used by the runner is proved sound, unique and complete (coq/proofs/QSolve_proofs.v), so C09_chk_solution_full_statement is a theorem "
+     "(C09_chk_solution_full, C09_chk_solution_is_about_R_model).")
+_app("C04", "text", " The Gauss-Jordan routine LA.qsolve used by the runner is proved sound, unique and complete (coq/proofs/QSolve_proofs.v): on a well-formed dataset with lambda > 0 it always answers, "
+     "and the model's own solution, embedded in R, satisfies the normal equations and minimises the ridge objective (C04_chk_fit_solution_is_ridge_optimum).")
